@@ -474,6 +474,13 @@ class SimSubprocess:
                 return (b"usage: solver <in> <out>\n", None)
             text = self._read(files[-2])
             outfile = files[-1]
+            if self.plan.get("input_file") == "deleted" and text is not None:
+                self.ctx.fault("input_file_deleted_by_the_solver")
+                try:
+                    import os as _os
+                    _os.unlink(files[-2])
+                except OSError:
+                    pass
         if text is None:
             rec["peer"] = "input-unreadable"
             return (b"c cannot read input\n", None)
